@@ -2,6 +2,7 @@ package harness
 
 import (
 	"context"
+	"crypto/tls"
 	"errors"
 	"fmt"
 	"time"
@@ -20,8 +21,9 @@ type FullConf struct {
 	Enc         []string `json:"enc"`
 	Comp        []string `json:"comp"`
 	Buf         int      `json:"buf"`
-	RegMode     int      `json:"reg_mode"` // 0: name@srv.org/<instance>-<n>; 1: colliding-looking addresses (same name, numbered instance)
-	InProcFixed []string `json:"-"`        // reuse these in-process addresses (server restart)
+	RegDelayMs  int      `json:"reg_delay_ms,omitempty"` // how long the Register callback takes
+	RegMode     int      `json:"reg_mode"`               // 0: name@srv.org/<instance>-<n>; 1: colliding-looking addresses (same name, numbered instance)
+	InProcFixed []string `json:"-"`                      // reuse these in-process addresses (server restart)
 }
 
 // CliSpec describes one real client.
@@ -34,6 +36,9 @@ type CliSpec struct {
 	Auth      string `json:"auth"`   // guest, plain, key, external
 	Name      string `json:"name"`
 	ReadLimit int64  `json:"read_limit,omitempty"` // tcp: client transport read limit
+	// Pooled: the client presents the same identity and instance as every other pooled client (a
+	// connection pool of one application): the candidate nodes of their registrations are equal
+	Pooled bool `json:"pooled,omitempty"`
 }
 
 var listenerKinds = []string{"tcp", "tcptls", "ws", "wss", "inproc"}
@@ -114,6 +119,9 @@ func StartFull(w *World, conf FullConf, basePort int, setup func(b *lime.ServerB
 		return lime.MemberAuthenticationResult(), nil
 	})
 	b.Register(func(ctx context.Context, cand lime.Node, c *lime.ServerChannel) (lime.Node, error) {
+		if conf.RegDelayMs > 0 {
+			time.Sleep(time.Duration(conf.RegDelayMs) * time.Millisecond) // a registration backend that takes its time
+		}
 		f.regN++
 		n := lime.Node{Identity: lime.Identity{Name: cand.Name, Domain: serverNode.Domain}, Instance: fmt.Sprintf("%s-%d", cand.Instance, f.regN)}
 		if conf.RegMode == 1 {
@@ -208,7 +216,12 @@ func (f *Full) Dial(ctx context.Context, li int, ipBuf int) (lime.Transport, err
 	case "tcp", "tcptls":
 		return lime.DialTcp(ctx, tcpAddr(f.BasePort+li), traced(f.Conf.Trace, &lime.TCPConfig{TLSConfig: cliTLS, ReadLimit: f.CliReadLimit}))
 	case "ws":
-		return lime.DialWebsocket(ctx, fmt.Sprintf("ws://127.0.0.1:%d", f.BasePort+li), nil, nil)
+		// (a TLS configuration handed to a plain websocket dial is legal and unused)
+		var wsCfg *tls.Config
+		if swarm.WSDialCfg {
+			wsCfg = cliTLS
+		}
+		return lime.DialWebsocket(ctx, fmt.Sprintf("ws://127.0.0.1:%d", f.BasePort+li), nil, wsCfg)
 	case "wss":
 		return lime.DialWebsocket(ctx, fmt.Sprintf("wss://127.0.0.1:%d", f.BasePort+li), nil, cliTLS)
 	default:
@@ -267,6 +280,9 @@ func authenticatorFor(kind string) lime.Authenticator {
 }
 
 func clientIdentity(c CliSpec, i int) lime.Identity {
+	if c.Pooled {
+		return lime.Identity{Name: "pooled", Domain: "cli.org"}
+	}
 	name := c.Name
 	if name == "" {
 		name = fmt.Sprintf("cli%d", i)
@@ -291,7 +307,11 @@ func (f *Full) ConnectChannel(ctx context.Context, c CliSpec, i int) (*lime.Clie
 	}
 	f.CliTransports[i] = t
 	ch := lime.NewClientChannel(t, c.Buf)
-	ses, err := ch.EstablishSession(ctx, compSelector, encSelector(c.Enc), clientIdentity(c, i), authenticatorFor(c.Auth), fmt.Sprintf("inst%d", i))
+	inst := fmt.Sprintf("inst%d", i)
+	if c.Pooled {
+		inst = "pool"
+	}
+	ses, err := ch.EstablishSession(ctx, compSelector, encSelector(c.Enc), clientIdentity(c, i), authenticatorFor(c.Auth), inst)
 	if err != nil {
 		t.Close()
 		return ch, nil, err
